@@ -232,25 +232,21 @@ def gen_scope(rng, depth, tags, budget):
     return out
 
 
-def ice3870_class(items, head=False):
-    """F55: a `group` that is reached inside the body of another `group` before any step of that body has produced
-    columns (only window heads in between).  Returns (in class, is the position behind `items` still such a head)"""
+def _own_step(items):
+    """does this body define a column or join at its own level (window bodies belong to the level they stand in)?"""
+    return any(it[0] in ("col", "sub") or (it[0] == "window" and _own_step(it[2])) for it in items)
+
+
+def ice3870_class(items):
+    """F55: somewhere in the nesting there is a `group` whose body, at its own level, consists of groups only (possibly
+    wrapped in `window`s): no derive / join of its own -- and its key column reaches the result (the join arguments of
+    this generator end in a `select` of other columns, which hides the defect: not descended into)"""
     for it in items:
-        if it[0] == "col" or it[0] == "sub":
-            if it[0] == "sub" and ice3870_class(it[1], False)[0]:
-                return True, False
-            head = False
-        elif it[0] == "group":
-            if head:
-                return True, False
-            if ice3870_class(it[2], True)[0]:
-                return True, False
-            head = False
-        else:
-            found, head = ice3870_class(it[2], head)
-            if found:
-                return True, False
-    return False, head
+        if it[0] == "group" and not _own_step(it[2]):
+            return True
+        if it[0] in ("group", "window") and ice3870_class(it[2]):
+            return True
+    return False
 
 
 def classify_scope(case):
@@ -351,9 +347,11 @@ SCOPE_DIRECTED = [
     [("window", (None, 0), [("sub", [("col", 1), ("window", (0, 2), [("col", 2)]), ("col", 3)]), ("col", 4)]), ("col", 5)],
     [("group", 1, [("window", (-1, 1), [("sub", [("col", 1)]), ("col", 2)])]), ("sub", [("group", 0, [("col", 3)])]), ("col", 4)],
     [("sub", [("sub", [("window", (1, 2), [("col", 1)]), ("col", 2)]), ("col", 3)]), ("col", 4)],
-    # F55: a group at the head of a group body (directly, or behind a window head)
-    [("group", 1, [("group", 0, [("col", 1)]), ("col", 2)])],
+    # F55: a group whose body consists of groups only (directly, or wrapped in a window)
+    [("group", 1, [("group", 0, [("col", 1)])]), ("col", 2)],
     [("group", 1, [("window", (0, 0), [("group", 0, [("col", 1)])])]), ("col", 2)],
+    # ... and the same nesting with a step of its own in the outer body: compiles, scoped as modelled
+    [("group", 1, [("group", 0, [("col", 1)]), ("col", 2)])],
 ]
 
 
@@ -362,7 +360,7 @@ def run_scope(ck):
     progs = [list(p) for p in SCOPE_DIRECTED]
     for _ in range(ck.n(150, 1200)):
         items = gen_scope(rng, 3, _Tags(), [8])
-        while ice3870_class(items)[0] and rng.random() < 0.9:        # keep a few of the F55 class, no more
+        while ice3870_class(items) and rng.random() < 0.9:        # keep a few of the F55 class, no more
             items = gen_scope(rng, 3, _Tags(), [8])
         progs.append(items)
     cases = []
@@ -393,7 +391,7 @@ def run_scope(ck):
             want["x%d" % tag] = ([BYS[b] for b in by], ("Rows" if kind == 0 else "Range", ms[0] if ms else None, me[0] if me else None), "".join(chr(x) for x in txt))
         if "ok" not in q:
             got = ck.disagreement("nested group / window program rejected by pl_to_rq: %s: %s" % (c["src"], json.dumps(q)[:200]),
-                                  {"src": c["src"], "impl": q, "ice_class": ice3870_class(c["items"])[0]}, classify_scope)
+                                  {"src": c["src"], "impl": q, "ice_class": ice3870_class(c["items"])}, classify_scope)
             ck.stat("scope-corr", "disagreement:" + (got or "rejected"))
             continue
         got, dup = rq_windows(q["ok"])
